@@ -652,25 +652,35 @@ impl RemoteApi {
         self.grpc(c.get_subscription_info(Request::new(req))).map(|r| r.into_inner()).map_err(|e| self.st(e))
     }
 
+    /// Private API calls are bounded like the public ones: a wedged tower must not hang the harness (the caller's
+    /// `expect` turns the time-out into a harness failure, never into a verdict).
+    fn private_call<T>(&self, fut: impl std::future::Future<Output = Result<T, tonic::Status>>) -> Result<T, tonic::Status> {
+        self.rt.block_on(async {
+            match tokio::time::timeout(Duration::from_millis(self.call_timeout_ms.load(Ordering::SeqCst).max(45_000)), fut).await {
+                Ok(r) => r,
+                Err(_) => Err(tonic::Status::deadline_exceeded("no answer from the private API")),
+            }
+        })
+    }
     pub fn get_all_appointments(&self) -> Vec<common_msgs::AppointmentData> {
         let mut c = lock(&self.private).clone();
-        self.rt.block_on(c.get_all_appointments(Request::new(()))).expect("get_all_appointments").into_inner().appointments
+        self.private_call(c.get_all_appointments(Request::new(()))).expect("get_all_appointments").into_inner().appointments
     }
     pub fn get_tower_info(&self) -> msgs::GetTowerInfoResponse {
         let mut c = lock(&self.private).clone();
-        self.rt.block_on(c.get_tower_info(Request::new(()))).expect("get_tower_info").into_inner()
+        self.private_call(c.get_tower_info(Request::new(()))).expect("get_tower_info").into_inner()
     }
     pub fn get_users(&self) -> Vec<Vec<u8>> {
         let mut c = lock(&self.private).clone();
-        self.rt.block_on(c.get_users(Request::new(()))).expect("get_users").into_inner().user_ids
+        self.private_call(c.get_users(Request::new(()))).expect("get_users").into_inner().user_ids
     }
     pub fn get_user(&self, user_id: Vec<u8>) -> Option<msgs::GetUserResponse> {
         let mut c = lock(&self.private).clone();
-        self.rt.block_on(c.get_user(Request::new(msgs::GetUserRequest { user_id }))).ok().map(|r| r.into_inner())
+        self.private_call(c.get_user(Request::new(msgs::GetUserRequest { user_id }))).ok().map(|r| r.into_inner())
     }
     pub fn stop(&self) -> bool {
         let mut c = lock(&self.private).clone();
-        self.rt.block_on(c.stop(Request::new(()))).is_ok()
+        self.private_call(c.stop(Request::new(()))).is_ok()
     }
 }
 
